@@ -56,12 +56,19 @@
 //	            a constant index (-> ParserGlue.str_index / str_from: None = run-time panic = PPanic),
 //	            len(s), conversions between string types (identity) and int -> uint64 (to_uint64 = mod 2^64),
 //	            composite literal T{} (zero value).
-//	primitives  the Parser methods (parser.go) are NOT translated by this program; a call p.m(...) is
-//	            printed as the hand model's operation (table `prims`): keyword string identifier
-//	            stringIdentifier token optionalToken peekToken nextToken peekKeyword uint int float
-//	            optionalUint intInRange anyOf optionalObjectType messageID signalValueType
-//	            environmentVariableType attributeValueType accessType enumValue useWhitespace discardLine.
-//	            Their tie to parser.go remains the differential run (hand model, correspondence only).
+//	helpers     func (p *Parser) m(params) [result] for the methods of table helperMethods (compositions of other helpers):
+//	            Parser_m : params -> M result. Additional forms: `return e` / `return p.m(..)` in tail position,
+//	            `if v := e; cond {..}`, `if err := v.Validate(); err != nil {..failf}` (-> the model's predicate of
+//	            v's type, table validPred), `x := EnumT(e)` followed by that Validate-if (-> match <enum>_of e),
+//	            `i, err := strconv.Atoi(s) | ParseUint(s, 10, 64) | ParseFloat(s, 64)` followed by `if err != nil [|| c]
+//	            {..failf}` (-> DecFloat.atoi / parse_uint / parse_float; other bases / bit sizes are errors), `x *= -1`
+//	            (int, int64: DecFloat.neg64 = wrap-around; float64: DecFloat.b64_neg = sign bit, exact for non-NaN),
+//	            l[i] on a slice with an unsigned index (None = PPanic), uint64(len(l)) = the length (a Go length is a
+//	            non-negative int), MessageID(uint64) = mod 2^32.
+//	Parse       see translateParse: exact shape required; emitted as Parser_Parse_dispatch / Parser_Parse_loop.
+//	primitives  a call p.m(...) inside any translated method is printed as the hand model's operation (table
+//	            `prims`); for the translated helpers ParserEquiv.v proves Parser_m = that operation. NOT translated
+//	            (hand model only): nextToken peekToken nextRune peekRune useWhitespace string int anyOf failf.
 package main
 
 import (
